@@ -148,10 +148,11 @@ func IndexOf(base, idx *Term, typ types.Type) *Term {
 	}
 	return mk('i', "", nil, typ, base, idx)
 }
-func Deref(p *Term, typ types.Type) *Term       { return mk('d', "", nil, typ, p) }
+func Deref(p *Term, typ types.Type) *Term { return mk('d', "", nil, typ, p) }
 func CallT(fn string, typ types.Type, args ...*Term) *Term {
 	return mk('k', fn, nil, typ, args...)
 }
+
 // CastT is the term of the type assertion x.(t).
 func CastT(x *Term, t types.Type) *Term { return mk('t', types.TypeString(t, nil), nil, t, x) }
 
